@@ -137,6 +137,12 @@ func buildProperty(ww *conversionVisitor, node *sourcewalk.PropertyNode) (*descr
 			})
 		}
 
+		if st.Array.Rules.GetUniqueItems() && fieldDesc.GetType() == descriptorpb.FieldDescriptorProto_TYPE_MESSAGE {
+			// repeated.unique is defined for scalar and enum items only, the
+			// validator fails (no such overload) on any non-empty list of messages.
+			return nil, fmt.Errorf("array rules: uniqueItems is not supported for message typed items (%s)", fieldDesc.GetTypeName())
+		}
+
 		ww.setJ5Ext(node.Source, fieldDesc.Options, "array", st.Array.Ext)
 
 		validateExt := proto.GetExtension(fieldDesc.Options, validate.E_Field).(*validate.FieldConstraints)
